@@ -326,3 +326,71 @@ pub fn structured_case(rng: &mut Rng, corpus: &[(String, Vec<u8>)]) -> Case {
     random_filters(rng, &mut sett);
     Case { bytes, sett, tag }
 }
+
+/// ASCII-only content carrying a declaration of a single-byte code page, with a few control bytes so
+/// that chaos lands between 0.1 and the default threshold: the declared encoding is accepted without
+/// early exit and `ascii` joins it as an alternative (little text, so no language is detected).
+pub fn declared_ascii_case(rng: &mut Rng) -> Case {
+    let enc = *rng.pick(&["windows-1252", "iso-8859-1", "iso-8859-2", "koi8-r", "windows-1251", "iso-8859-15", "macintosh", "ibm866", "latin1", "cp1252"]);
+    let kw = *rng.pick(&["charset", "encoding", "coding"]);
+    let mut s = format!("<meta {}={}> ", kw, enc);
+    let digits = rng.range(60, 140);
+    for i in 0..digits {
+        s.push(if i % 7 == 6 { ' ' } else { (b'0' + rng.below(10) as u8) as char });
+    }
+    if rng.chance(1, 2) {
+        s.push_str(" ok go");
+    }
+    let mut b = s.into_bytes();
+    let n_ctrl = rng.range(1, 4);
+    for _ in 0..n_ctrl {
+        let pos = rng.range(30, b.len());
+        b.insert(pos, *rng.pick(&[1u8, 2, 7, 0x1b, 0x10]));
+    }
+    Case { bytes: b, sett: Sett::default(), tag: format!("declared-ascii:{}", enc) }
+}
+
+/// > 1 MB of UTF-8 text that is mostly non-ASCII, with pure-ASCII passages exactly where the lazy
+/// byte windows of a single-byte probe fall: single-byte candidates pass their sampled windows and
+/// are only rejected by the final look at the remainder.
+pub fn large_mixed_case(rng: &mut Rng, steps: usize) -> Vec<u8> {
+    let len_target = 1_200_000 + rng.below(1000);
+    let russian = TEXTS.iter().find(|(n, _)| *n == "russian").unwrap().1;
+    let mut b: Vec<u8> = Vec::with_capacity(len_target + 1024);
+    // non-uniform density (first 40 %: Cyrillic letters only, 2 bytes per character) so that the
+    // character windows of a multi-byte probe do NOT coincide with the byte windows of a lazy one
+    let letters: String = russian.chars().filter(|c| *c as u32 >= 0x400).collect();
+    while b.len() < len_target * 2 / 5 {
+        b.extend_from_slice(letters.as_bytes());
+    }
+    while b.len() < len_target {
+        b.extend_from_slice(russian.as_bytes());
+        b.push(b' ');
+    }
+    b.truncate(len_target);
+    // make it valid UTF-8 again at the cut
+    while std::str::from_utf8(&b).is_err() {
+        b.pop();
+    }
+    let len = b.len();
+    let ascii = b"The quick brown fox jumps over the lazy dog and keeps running through the quiet forest until the evening comes. ";
+    let step = (len / steps).max(1);
+    let mut off = 0;
+    while off < len {
+        // overwrite [off-8, off+520) with ASCII, keeping UTF-8 validity by widening to char boundaries
+        let mut a = off.saturating_sub(8);
+        let mut z = (off + 520).min(len);
+        while a > 0 && (b[a] & 0xC0) == 0x80 {
+            a -= 1;
+        }
+        while z < len && (b[z] & 0xC0) == 0x80 {
+            z += 1;
+        }
+        for (k, i) in (a..z).enumerate() {
+            b[i] = ascii[k % ascii.len()];
+        }
+        off += step;
+    }
+    debug_assert!(std::str::from_utf8(&b).is_ok());
+    b
+}
